@@ -57,7 +57,7 @@ Print Assumptions C08_region_same_row.
 (* ---------- C08_delete_yank_put ---------- *)
 (* character-wise inside one line: the register holds exactly the region's text, the line becomes
    before ++ after, and putting that text back before offset o1 restores the buffer *)
-Theorem C08_delete_yank_put_chars : forall b R y r o1 o2 l, getl b r = Some l -> 0 <= o1 <= o2 -> o2 <= slen l - 1 ->
+Theorem C08_delete_yank_put_chars : forall b R y r o1 o2 l, getl b r = Some l -> line_wf l -> 0 <= o1 <= o2 -> o2 <= slen l - 1 ->
   c_isupper y = false -> y <> 34%N ->
   let g := mk_region r o1 r o2 false in
   let '(b', R') := vi_delete b R y g in
